@@ -1034,6 +1034,66 @@ pub fn c17_context(c: &C17Ctx, st: &mut Stats) -> Check {
         }
         st.nontrivial(fp_combine(ctx_fp, 5000 + cc as u64));
     }
+    // 6. the same differences asked for back to back, in both orders: the two states of a pair are built
+    // and hashed one right after the other with nothing in between, as a client comparing two candidate
+    // positions does (a value remembered from the previous call must not leak into the next one)
+    let pair = |a: (&Board, bool, usize, PushPullState), b: (&Board, bool, usize, PushPullState)| -> Result<bool, Fail> {
+        let ha = th(a.0, a.1, a.2, a.3)?;
+        let hb = th(b.0, b.1, b.2, b.3)?;
+        Ok(ha != hb)
+    };
+    for sq in 0..64u8 {
+        for &ca in contents.iter() {
+            for &cb in contents.iter() {
+                if ca == cb {
+                    continue;
+                }
+                let (mut a, mut b) = (c.board, c.board);
+                a.0[sq as usize] = ca;
+                b.0[sq as usize] = cb;
+                st.eval();
+                ensure!(pair((&a, c.gold, c.step, status), (&b, c.gold, c.step, status))?, "C17:square_content", "asked back to back, states that differ only in the content of {} ('{}' then '{}') have the same transposition hash in context {}", m::sq_name(sq), m::code_letter(ca), m::code_letter(cb), ctx);
+            }
+        }
+    }
+    for (ga, gb) in [(true, false), (false, true)] {
+        st.eval();
+        ensure!(pair((&c.board, ga, c.step, status), (&c.board, gb, c.step, status))?, "C17:side", "asked back to back, states that differ only in the side to move have the same transposition hash in context {}", ctx);
+    }
+    for i in 0..4 {
+        for j in 0..4 {
+            if i != j {
+                st.eval();
+                ensure!(pair((&c.board, c.gold, i, status), (&c.board, c.gold, j, status))?, "C17:step", "asked back to back, states that differ only in the step number ({} then {}) have the same transposition hash in context {}", i, j, ctx);
+            }
+        }
+    }
+    for k in 0..statuses.len() {
+        let (sa, sb) = (statuses[k], statuses[(k + 1) % statuses.len()]);
+        for (x, y) in [(sa, sb), (sb, sa), (status, sa), (sa, status)] {
+            if x != y {
+                st.eval();
+                ensure!(pair((&c.board, c.gold, c.step, x), (&c.board, c.gold, c.step, y))?, "C17:status", "asked back to back, states that differ only in the pending push/pull ({:?} then {:?}) have the same transposition hash in context {}", x, y, ctx);
+            }
+        }
+    }
+    for &cc in contents.iter().skip(1) {
+        let empties: Vec<u8> = (0..64u8).filter(|&q| c.board.at(q) == m::EMPTY).collect();
+        for w in 0..empties.len() {
+            // each empty square against its successor in the list and against a far one, both orders
+            for other in [empties[(w + 1) % empties.len()], empties[(w * 7 + 3) % empties.len()]] {
+                if other == empties[w] {
+                    continue;
+                }
+                let (mut a, mut b) = (c.board, c.board);
+                a.0[empties[w] as usize] = cc;
+                b.0[other as usize] = cc;
+                st.eval();
+                ensure!(pair((&a, c.gold, c.step, status), (&b, c.gold, c.step, status))? && pair((&b, c.gold, c.step, status), (&a, c.gold, c.step, status))?, "C17:relocation", "asked back to back, states that differ only by a '{}' standing on {} instead of {} have the same transposition hash in context {}", m::code_letter(cc), m::sq_name(empties[w]), m::sq_name(other), ctx);
+            }
+        }
+    }
+    st.nontrivial(fp_combine(ctx_fp, 6000));
     Ok(())
 }
 
@@ -1054,7 +1114,7 @@ fn run_c17(cfg: &RunCfg, stats: &mut Stats, exhaustive: &mut bool, extra: &mut V
         }
         stats.bump(&format!("fixed_context_{}", name));
     }
-    let cases = if cfg.thorough { 400 } else { 12 };
+    let cases = if cfg.thorough { 4000 } else { 150 };
     let seed = cfg.seed;
     let out = sharded(
         cfg,
